@@ -87,7 +87,7 @@ pub fn err_json(e: &starlark::Error, full: bool) -> J {
         .map(|f| {
             json!([f.name, f.location.as_ref().map(|l| {
                 let r = l.resolve_span();
-                json!([l.filename(), r.begin.line, r.begin.column])
+                json!([l.filename(), r.begin.line, r.begin.column, (l.span.end().get() as usize) <= l.file.source().len()])
             })])
         })
         .collect();
@@ -113,7 +113,13 @@ pub fn snapshot_json(name: &str, v: Value) -> J {
 }
 
 pub fn globals() -> Globals {
-    globals_builder().build()
+    let g = globals_builder().build();
+    natives::GLOBAL_NAMES.get_or_init(|| {
+        let mut v: Vec<String> = g.names().map(|n| n.as_str().to_owned()).collect();
+        v.sort();
+        v
+    });
+    g
 }
 
 pub fn globals_builder() -> GlobalsBuilder {
@@ -145,6 +151,7 @@ pub struct Cfg {
     pub full_errors: bool,
     pub reuse_eval: bool,
     pub verbose_gc: bool,
+    pub probe: Option<String>,
 }
 
 impl Cfg {
@@ -163,6 +170,7 @@ impl Cfg {
             full_errors: b("full_errors"),
             reuse_eval: b("reuse_eval"),
             verbose_gc: false,
+            probe: j.get("probe").and_then(|x| x.as_str()).map(|s| s.to_owned()),
         }
     }
 }
@@ -322,6 +330,10 @@ pub fn run_case(case: &J) -> Vec<J> {
                             shared = Some(e);
                         }
                         do_eval(shared.as_mut().unwrap(), f, idx, isrc, cfg, &globals);
+                        if let Some(p) = &cfg.probe {
+                            cancel.store(false, Ordering::SeqCst);
+                            do_eval(shared.as_mut().unwrap(), "probe.star", idx, p, cfg, &globals);
+                        }
                     } else {
                         let mut e = Evaluator::new(&module);
                         e.set_loader(&loader);
@@ -330,6 +342,11 @@ pub fn run_case(case: &J) -> Vec<J> {
                             log(json!(["setup_err", m]));
                         }
                         do_eval(&mut e, f, idx, isrc, cfg, &globals);
+                        if let Some(p) = &cfg.probe {
+                            // the same evaluator must be usable again after whatever just happened
+                            cancel.store(false, Ordering::SeqCst);
+                            do_eval(&mut e, "probe.star", idx, p, cfg, &globals);
+                        }
                         if let Some(set) = item.get("set_after").and_then(|p| p.as_array()) {
                             for kv in set {
                                 module.set(kv[0].as_str().unwrap(), canon::decode(&kv[1], heap));
